@@ -201,13 +201,13 @@ class Unit:
     def rewrite(self, it: Item):
         if it.name in self.override:
             return self.override[it.name]
-        enabled = it.src_opts.get("rules", self.cfg.get("rules", ["R1", "R2", "R3", "R4", "R5", "R6", "R10", "R12"]))
+        enabled = it.src_opts.get("rules", self.cfg.get("rules", ["R1", "R2", "R3", "R4", "R5", "R6", "R10", "R12", "R15"]))
         t = it.text
         keep = set(self.cfg.get("keep_derives", list(R.KEEP_DERIVES)))
         if "R1" in enabled:
             t, n = R.r1_strip_attrs_comments(t, keep)
             self._count("R1", n)
-        for r in ("R2", "R5", "R4", "R6", "R3", "R10"):
+        for r in ("R2", "R5", "R4", "R6", "R3", "R10", "R15"):
             if r in enabled:
                 t, n = R.RULES[r](t)
                 self._count(r, n)
@@ -448,6 +448,9 @@ class Unit:
                                                sha256_of_extracted_text=it.sha, contracted=c is not None,
                                                canary=len(twins) > 1))
                 else:
+                    # verifier-only attributes (no run-time meaning), e.g. reject_recursive_types
+                    for a in it.opts.get("attrs", []):
+                        t = a + "\n" + t.lstrip()
                     lo, hi = g.emit(t)
                     g.region(lo, hi, kind="decl", item=it.name, file=it.file, line=it.line)
             except (LostAnchor, L.LexError) as e:
